@@ -3373,7 +3373,10 @@ impl IceCandidatePair {
             IceRole::Controlling => (g, d),
             IceRole::Controlled => (d, g),
         };
-        (1u64 << 32) * std::cmp::min(g, d) + 2 * std::cmp::max(g, d) + if g > d { 1 } else { 0 }
+        // RFC 8445 §6.1.2.3. With g == d == u32::MAX the sum exceeds u64::MAX by 2^32 - 2
+        // (a remote SDP can carry such a priority): saturate instead of overflowing.
+        ((1u64 << 32) * std::cmp::min(g, d))
+            .saturating_add(2 * std::cmp::max(g, d) + if g > d { 1 } else { 0 })
     }
 }
 
